@@ -41,6 +41,7 @@ type daemonOpts struct {
 	sshdPath  string // override (mis-configuration scenarios)
 	auditPath string
 	noFifos   bool
+	logLevel  string // "" => error
 }
 
 func startDaemon(o daemonOpts) (*daemon, error) {
@@ -70,8 +71,12 @@ func startDaemon(o daemonOpts) (*daemon, error) {
 	if dbg := os.Getenv("VERIF_DEBUG_DAEMON_BIN"); dbg != "" {
 		binPath = dbg
 	}
+	lvl := o.logLevel
+	if lvl == "" {
+		lvl = "error"
+	}
 	d.cmd = exec.Command(binPath,
-		"-sshd-pipe-path", d.sshdPath, "-auditd-pipe-path", d.auditPath, "-app-events-output", d.outPath, "-log-level", "error")
+		"-sshd-pipe-path", d.sshdPath, "-auditd-pipe-path", d.auditPath, "-app-events-output", d.outPath, "-log-level", lvl)
 	d.cmd.Env = append(os.Environ(), "NODE_NAME="+vNode, "GOTRACEBACK=all",
 		"GORACE=halt_on_error=0 exitcode=0 atexit_sleep_ms=0 log_path="+filepath.Join(dir, "race"))
 	d.cmd.Stderr = d.stderr
